@@ -38,6 +38,19 @@
 (***************************************************************************)
 EXTENDS Naturals, Sequences, FiniteSets, TLC, Json
 
+\* FORMATTER FLAG FAMILIES.  "Display text" / "Debug text" is not one text: a reader formats a value
+\* under a formatter ({}, {:#?}, {:>10.2?}, ...).  The display / debug / debug_or_text components say
+\* that the captured value formats AS THE ORIGINAL WOULD UNDER THE SAME FORMATTER, for the plain
+\* formatter and for every family below, through Display ({:..}) and through Debug ({:..?}), on every
+\* representation and read path that still promises the component; text_stable likewise compares
+\* the flagged texts with those of the captured Value (except hex: the two's complement width of a
+\* typed integer is a detail of the representation).  A template hole carrying flags
+\* (#[emit::fmt("#?")], #[emit::fmt(">8.2?")], #[emit::fmt(">8.2")]) is such a reader too.
+\*   alt        #          width      >10        fill   *>6
+\*   prec       .2         widthprec  >8.2       sign   +
+\*   zero       06         hex        x? and #06x? (Debug only)
+FmtFamilies == {"alt", "width", "fill", "prec", "widthprec", "sign", "zero", "hex"}
+
 CONSTANTS
     MaxSteps,   \* bound on the length of a transformation path
     ExhaustUpTo,\* paths up to this length are run on EVERY extreme of the value pool
@@ -52,7 +65,11 @@ Modes == {"default", "as_display", "as_display_inspect", "as_display_inspect_fal
           \* the other well-known keys with a capture of their own (macros/src/capture.rs default_fn_name)
           "lvl_key", "trace_id_key", "span_id_key", "span_parent_key",
           "optional_default", "optional_as_value", "optional_as_sval", "optional_as_serde",
-          "optional_as_debug"}
+          "optional_as_debug",
+          \* no attribute and no macro: the conversion API the capture traits rest on, as a hand-built
+          \* property uses it - Value::from(x) (From<T>, From<&T>, From<Option<T>>, From<&[T; N]>) and
+          \* x.to_value() on trait objects (dyn Display / dyn Debug / dyn Error) and arrays
+          "from_value"}
 OptionalModes == {"optional_default", "optional_as_value", "optional_as_sval",
                   "optional_as_serde", "optional_as_debug"}
 
@@ -66,7 +83,8 @@ Structured == {"struct", "enum", "seq", "map", "bytes", "option_some", "option_n
 InputForms == {"dyn_display", "dyn_debug", "ref_ref", "err_str", "wk_value", "wk_text", "wk_none"}
 WkModes == {"lvl_key", "trace_id_key", "span_id_key", "span_parent_key"}
 Classes == Prim \cup Structured \cup InputForms \cup {"float32", "char", "error", "display_only", "debug_only",
-                                      "none_prim", "none_struct"}
+                                      "none_prim", "none_struct",
+                                      "arr"}     \* a fixed-size array of primitives, [T; N] / &[T; N]
 NoneClasses == {"none_prim", "none_struct", "wk_none"}
 
 \* captured as the primitive it is when inspected
@@ -101,7 +119,9 @@ ValidBase(m, b, c) ==
            [] c \in Prim -> b \in {"default", "as_value", "as_sval", "as_serde", "as_debug"}
            [] c \in {"struct", "seq", "map"} -> b \in {"as_sval", "as_serde", "as_debug"}
            [] OTHER -> FALSE
-    ELSE CASE c \in Prim -> b \in PlainModes
+    ELSE CASE b = "from_value" -> c \in Prim \cup {"option_some", "option_none", "error", "dyn_display", "dyn_debug", "arr"}
+           [] c = "arr" -> FALSE
+           [] c \in Prim -> b \in PlainModes
            [] c \in {"float32", "char"} -> b \in {"default", "as_display", "as_display_inspect", "as_debug",
                                                   "as_debug_inspect", "as_sval", "as_serde"}
            [] c \in {"struct", "enum"} -> b \in {"default", "as_display", "as_debug", "as_debug_inspect", "as_sval",
@@ -136,7 +156,19 @@ Meaning(m, c) ==
     LET b == Base(m) IN
     IF c \in NoneClasses THEN {"absent"}       \* optional None / None under a well-known key: no property at all
     ELSE {"present"} \cup
-        CASE b = "default" ->
+        CASE b = "from_value" ->
+                \* the conversions keep what the value is: typed primitives, the content of an Option
+                \* (None: the null value), the error with its chain, the trait object's text, and the
+                \* array as the sequence it is
+                CASE c \in Prim -> {"pull", "text_stable"}
+                  [] c = "option_some" -> {"pull"}
+                  [] c = "option_none" -> {"null"}
+                  [] c = "error" -> {"chain"}
+                  [] c = "dyn_display" -> {"display"}
+                  [] c = "dyn_debug" -> {"debug"}
+                  [] c = "arr" -> {"tree"}
+                  [] OTHER -> {}
+          [] b = "default" ->
                 \* numbers, booleans, strings pull back typed; anything else displays
                 IF c \in Prim \cup {"float32"} THEN {"pull", "text_stable"} ELSE {"display"}
           \* `inspect: true` asks for the value to be captured as the primitive it is; how a
@@ -171,9 +203,25 @@ Survives(s) ==
       [] s \in {"ToOwned", "ToShared", "IntoCtxt", "PushFrame", "MoveThread"} ->
             {"present", "absent", "pull", "tree", "null", "text_stable"}
 
+\* TYPED READ PATHS of a Value, offered where the call site promises the typed component:
+\*   as_f64        Value::as_f64 of a number: the number as the f64 it converts to
+\*   cast_string   cast::<String>() of a string: an owned copy of it
+\*   borrowed_str  Value::to_borrowed_str / cast_ref_str  cast::<&str>(): the string itself, borrowed.
+\*                 While the value has only been passed by reference / type-erased (never copied
+\*                 into an owned form) the borrow must be there; afterwards it may be absent
+\*                 (None), never a different string
+\*   cast_error    cast::<&(dyn Error + 'static)>(): the error, for the chain
+TypedReaders(st) ==
+    LET m == Meaning(st[1], st[2]) IN
+    (IF "pull" \in m /\ st[2] \in {"int", "float", "float32"} THEN {"as_f64"} ELSE {})
+    \cup (IF "pull" \in m /\ st[2] \in {"str", "string", "err_str"}
+          THEN {"borrowed_str", "cast_ref_str", "cast_string"} ELSE {})
+    \cup (IF "chain" \in m THEN {"cast_error"} ELSE {})
+
 \* THE READ PATHS each representation offers (the final observation goes through one of them)
-Readers(r, path) ==
+Readers(r, path, st) ==
     CASE r = "val" ->
+            TypedReaders(st) \cup
             {"value",        \* the Value's own methods / impls
              "clone",        \* a clone of it
              "to_value",     \* ToValue::to_value / Value::from_any
@@ -233,7 +281,7 @@ ReadBack == Step("ReadBack", {"owned", "shared", "frame"}, "val") /\ UNCHANGED t
 \* the final observation, through one of the read paths of the representation
 Observe ==
     /\ obs = "none"
-    /\ \E r \in Readers(rep, hist) : obs' = r
+    /\ \E r \in Readers(rep, hist, site) : obs' = r
     /\ UNCHANGED <<site, rep, thr, comp, hist>>
 
 Next == ByRef \/ Erase \/ EraseEvent \/ ToOwned \/ ToShared \/ IntoCtxt \/ PushFrame \/ MoveThread \/ ReadBack
@@ -248,7 +296,7 @@ Meet(path, i) == IF i > Len(path) THEN All ELSE Survives(path[i]) \cap Meet(path
 Promise == Meaning(site[1], site[2]) \cap Meet(hist, 1)
 
 TypeOK == rep \in {"val", "owned", "shared", "frame"} /\ thr \in {0, 1} /\ comp \subseteq All
-          /\ (obs = "none" \/ obs \in Readers(rep, hist))
+          /\ (obs = "none" \/ obs \in Readers(rep, hist, site))
 
 \* no read path weakens the promise: what is promised for the representation is promised for
 \* every reader of it (Observe leaves comp unchanged) - stated as an action property
@@ -262,11 +310,12 @@ PresenceNeverLost ==
     /\ "present" \in Meaning(site[1], site[2]) => "present" \in comp
     /\ "absent" \in Meaning(site[1], site[2]) => comp = {"absent"}
 TypedSurvivesBuffering ==
-    (site[2] \in Prim /\ Base(site[1]) \in {"default", "as_value", "as_value_inspect"})
+    (site[2] \in Prim /\ Base(site[1]) \in {"default", "as_value", "as_value_inspect", "from_value"})
         => {"pull", "text_stable"} \subseteq comp
 StructureSurvivesBuffering ==
-    Base(site[1]) \in {"as_sval", "as_sval_inspect", "as_serde", "as_serde_inspect"}
+    /\ Base(site[1]) \in {"as_sval", "as_sval_inspect", "as_serde", "as_serde_inspect"}
         /\ site[2] \notin NoneClasses => "tree" \in comp
+    /\ site[2] = "arr" => "tree" \in comp
 DirectReadKeepsAll ==
     (\A i \in 1..Len(hist) : hist[i] \in {"ByRef", "Erase", "EraseEvent"}) => comp = Meaning(site[1], site[2])
 
@@ -276,7 +325,9 @@ DirectReadKeepsAll ==
 EmitReplay ==
     (Emit /\ obs' # "none" /\ obs = "none") =>
         PrintT(<<"REPLAY", ToJson([mode |-> site[1], class |-> site[2], wrap |-> site[3], path |-> hist,
-                                    reader |-> obs', promise |-> comp,
+                                    reader |-> obs', promise |-> comp, fmts |-> FmtFamilies,
+                                    \* the value has only been passed by reference / type-erased so far
+                                    direct |-> \A i \in 1..Len(hist) : hist[i] \in {"ByRef", "Erase", "EraseEvent"},
                                     values |-> IF Len(hist) <= ExhaustUpTo THEN "all" ELSE "draw"])>>)
 
 \* the call sites and their meaning, printed once
